@@ -56,6 +56,42 @@ async fn recv_one(out: &mut dyn Write, ctx: &mut Ctx, dg: &[u8], history: &mut V
     }
 }
 
+/// several datagrams are queued at the socket before `receive()` is called once for each
+async fn recv_burst(out: &mut dyn Write, ctx: &mut Ctx, dgs: &[Vec<u8>], history: &mut Vec<String>, viol: &mut u64) {
+    let op = format!("udp burst {}", dgs.len());
+    history.push(op.clone());
+    rec(out, &op, "ok");
+    for dg in dgs {
+        ctx.sender.send_to(dg, ctx.addr).await.expect("send");
+    }
+    // let the datagrams reach the socket's queue
+    tokio::time::sleep(Duration::from_millis(5)).await;
+    for dg in dgs {
+        let op = format!("udp recv {}", hex(dg));
+        history.push(op.clone());
+        let r = tokio::time::timeout(Duration::from_secs(5), ctx.transport.receive()).await;
+        let got = match r {
+            Ok(Ok(p)) => format!("ok {}", pdu_repr(&p)),
+            Ok(Err(_)) => "err".to_string(),
+            Err(_) => "timeout".to_string(),
+        };
+        rec(out, &op, &got);
+        let alone = match PDU::decode(&mut &dg[..]) {
+            Ok(p) => format!("ok {}", pdu_repr(&p)),
+            Err(_) => "err".to_string(),
+        };
+        if got != alone {
+            *viol += 1;
+            oracle(
+                out,
+                "C16",
+                "own_bytes",
+                &format!("receive() gave `{}` but the datagram alone decodes as `{}` || after: {}", got, alone, history.join("; ")),
+            );
+        }
+    }
+}
+
 pub fn run(opts: &Opts, out: &mut dyn Write) {
     let rt = tokio::runtime::Builder::new_current_thread().enable_io().enable_time().build().unwrap();
     let mut viol = 0u64;
@@ -64,6 +100,8 @@ pub fn run(opts: &Opts, out: &mut dyn Write) {
         if let Some(p) = &opts.replay {
             let mut ctx: Option<Ctx> = None;
             let mut hist = vec![];
+            let mut pending_burst = 0usize;
+            let mut burst: Vec<Vec<u8>> = vec![];
             for line in std::fs::read_to_string(p).expect("replay").lines() {
                 let line = line.split('\t').next().unwrap().trim();
                 let t: Vec<&str> = line.split_whitespace().collect();
@@ -73,9 +111,20 @@ pub fn run(opts: &Opts, out: &mut dyn Write) {
                         hist = vec!["udp new".to_string()];
                         rec(out, "udp new", "ok");
                     } else if t[1] == "recv" && t.len() == 3 {
-                        if let Some(c) = ctx.as_mut() {
+                        if pending_burst > 0 {
+                            burst.push(unhex(t[2]));
+                            pending_burst -= 1;
+                            if pending_burst == 0 {
+                                if let Some(c) = ctx.as_mut() {
+                                    recv_burst(out, c, &burst, &mut hist, &mut viol).await;
+                                }
+                                burst.clear();
+                            }
+                        } else if let Some(c) = ctx.as_mut() {
                             recv_one(out, c, &unhex(t[2]), &mut hist, &mut viol).await;
                         }
+                    } else if t[1] == "burst" && t.len() == 3 {
+                        pending_burst = t[2].parse().unwrap_or(0);
                     }
                 }
             }
@@ -113,6 +162,42 @@ pub fn run(opts: &Opts, out: &mut dyn Write) {
                 recv_one(out, &mut ctx, &short[..k], &mut hist, &mut viol).await;
             }
             recv_one(out, &mut ctx, &short, &mut hist, &mut viol).await;
+            cases += 1;
+        }
+        // bursts: a valid datagram, an undecodable one (its data-field length forced to 0xFFFF, or cut short, or a flipped
+        // octet) and truncations of shorter datagrams are all queued at the socket before receive() is called
+        let bursts = if opts.thorough { 400 } else { 40 };
+        for _ in 0..bursts {
+            let v = rng.pick(&corp).clone();
+            let w = rng.pick(&corp).clone();
+            let mut bad = v.clone();
+            match rng.below(3) {
+                0 if bad.len() > 2 => {
+                    bad[1] = 0xFF;
+                    bad[2] = 0xFF;
+                }
+                1 if bad.len() > 1 => {
+                    let k = rng.below(bad.len() as u64 - 1) as usize;
+                    bad.truncate(k + 1);
+                }
+                _ => {
+                    let k = rng.below(bad.len() as u64) as usize;
+                    bad[k] ^= 1 << rng.below(8);
+                }
+            }
+            let short = if w.len() <= v.len() { w.clone() } else { v.clone() };
+            let mut dgs = vec![v.clone(), bad];
+            for _ in 0..(1 + rng.below(3)) {
+                let k = rng.below(short.len() as u64 + 1) as usize;
+                dgs.push(short[..k].to_vec());
+            }
+            if rng.chance(1, 2) {
+                dgs.push(w.clone());
+            }
+            let mut ctx = new_ctx().await;
+            rec(out, "udp new", "ok");
+            let mut hist = vec!["udp new".to_string()];
+            recv_burst(out, &mut ctx, &dgs, &mut hist, &mut viol).await;
             cases += 1;
         }
     });
